@@ -139,3 +139,136 @@ package buffer
 //@   ensures [value] len(old(reader.Msg)) >= 4 ==> (result.1 == nil && result.0 == mbe32(arr(old(reader.Msg)), off(old(reader.Msg))))
 //@   ensures [advance] len(old(reader.Msg)) >= 4 ==> (arr(reader.Msg) == arr(old(reader.Msg)) && off(reader.Msg) == off(old(reader.Msg)) + 4 && len(reader.Msg) == len(old(reader.Msg)) - 4)
 //@   modifies reader.Msg
+
+// ---- Writer -------------------------------------------------------------
+// The frame under construction is described at byte level (length #blen and
+// content of writer.frame) and at token level (ghost grammar state, see
+// /verif/spec/10_grammar.spec). Every Add* appends exactly its bytes and steps
+// the grammar by exactly one token, unless the error latch is set.
+
+//@ func NewWriter
+//@   props C02 C11 C04
+//@   ensures [ctor] result != nil && fresh(result) && result.Writer == writer && result.logger == logger && result.err == nil
+//@   modifies nothing
+
+//@ func (*Writer).Reset
+//@   props C02 C04
+//@   requires writer != nil
+//@   ensures [empty] writer.frame.#blen == 0 && writer.err == nil
+//@   modifies writer.err, writer.frame.#blen
+
+//@ func (*Writer).Error
+//@   props C02 C04
+//@   requires writer != nil
+//@   ensures result == writer.err
+//@   modifies nothing
+
+//@ func (*Writer).Bytes
+//@   props C02 C04
+//@   requires writer != nil
+//@   ensures arr(result) == bufarr(writer.frame) && off(result) == 0 && len(result) == writer.frame.#blen
+//@   modifies nothing
+
+//@ func (*Writer).Start
+//@   props C02 C04
+//@   requires writer != nil
+//@   ensures [fresh-frame] writer.frame.#blen == 5 && mem(bufarr(writer.frame), 0) == t && writer.err == nil
+//@   ensures [grammar-reset] writer.#ft == t && writer.#gs == 0 && writer.#gn == 0 && writer.#gk == 0 && writer.#gm == 0
+//@   ghostset writer.#ft = t
+//@   ghostset writer.#gs = 0
+//@   ghostset writer.#gn = 0
+//@   ghostset writer.#gk = 0
+//@   ghostset writer.#gm = 0
+//@   modifies writer.err, writer.frame.#blen, bufbytes(writer.frame), arrayof(writer.putbuf), writer.#ft, writer.#gs, writer.#gn, writer.#gk, writer.#gm
+
+//@ func (*Writer).AddByte
+//@   props C02 C04
+//@   requires writer != nil
+//@   requires [started] writer.err == nil ==> FrameOK(writer)
+//@   ensures [appended] old(writer.err) == nil ==> (writer.err == nil && writer.frame.#blen == old(writer.frame.#blen) + 1 && mem(bufarr(writer.frame), old(writer.frame.#blen)) == b && FrameOK(writer))
+//@   ensures [token] old(writer.err) == nil ==> (writer.#gs == old(WS(writer, 1, b)) && writer.#gn == old(WN(writer, 1, b)) && writer.#gk == old(WK(writer, 1, b)) && writer.#gm == old(WM(writer, 1, b)) && writer.#ft == old(writer.#ft))
+//@   ensures [latched] old(writer.err) != nil ==> (writer.err == old(writer.err) && writer.frame.#blen == old(writer.frame.#blen) && writer.#gs == old(writer.#gs))
+//@   ghostset writer.#gs = old(WS(writer, 1, b)) if old(writer.err) == nil
+//@   ghostset writer.#gn = old(WN(writer, 1, b)) if old(writer.err) == nil
+//@   ghostset writer.#gk = old(WK(writer, 1, b)) if old(writer.err) == nil
+//@   ghostset writer.#gm = old(WM(writer, 1, b)) if old(writer.err) == nil
+//@   modifies writer.err, writer.frame.#blen, bufbytes(writer.frame, writer.frame.#blen), writer.#gs, writer.#gn, writer.#gk, writer.#gm
+
+//@ func (*Writer).AddInt16
+//@   props C02 C04
+//@   requires writer != nil
+//@   requires [started] writer.err == nil ==> FrameOK(writer)
+//@   ensures [appended] old(writer.err) == nil ==> (writer.err == nil && writer.frame.#blen == old(writer.frame.#blen) + 2 && mbe16(bufarr(writer.frame), old(writer.frame.#blen)) == wrap16u(i) && FrameOK(writer) && size == 2)
+//@   ensures [token] old(writer.err) == nil ==> (writer.#gs == old(WS(writer, 2, i)) && writer.#gn == old(WN(writer, 2, i)) && writer.#gk == old(WK(writer, 2, i)) && writer.#gm == old(WM(writer, 2, i)) && writer.#ft == old(writer.#ft))
+//@   ensures [latched] old(writer.err) != nil ==> (writer.err == old(writer.err) && writer.frame.#blen == old(writer.frame.#blen) && writer.#gs == old(writer.#gs) && size == 0)
+//@   ghostset writer.#gs = old(WS(writer, 2, i)) if old(writer.err) == nil
+//@   ghostset writer.#gn = old(WN(writer, 2, i)) if old(writer.err) == nil
+//@   ghostset writer.#gk = old(WK(writer, 2, i)) if old(writer.err) == nil
+//@   ghostset writer.#gm = old(WM(writer, 2, i)) if old(writer.err) == nil
+//@   modifies writer.err, writer.frame.#blen, bufbytes(writer.frame, writer.frame.#blen), writer.#gs, writer.#gn, writer.#gk, writer.#gm, #maxalloc, #nalloc
+
+//@ func (*Writer).AddInt32
+//@   props C02 C04
+//@   requires writer != nil
+//@   requires [started] writer.err == nil ==> FrameOK(writer)
+//@   ensures [appended] old(writer.err) == nil ==> (writer.err == nil && writer.frame.#blen == old(writer.frame.#blen) + 4 && mbe32(bufarr(writer.frame), old(writer.frame.#blen)) == wrap32u(i) && FrameOK(writer) && size == 4)
+//@   ensures [token] old(writer.err) == nil ==> (writer.#gs == old(WS(writer, 3, i)) && writer.#gn == old(WN(writer, 3, i)) && writer.#gk == old(WK(writer, 3, i)) && writer.#gm == old(WM(writer, 3, i)) && writer.#ft == old(writer.#ft))
+//@   ensures [latched] old(writer.err) != nil ==> (writer.err == old(writer.err) && writer.frame.#blen == old(writer.frame.#blen) && writer.#gs == old(writer.#gs) && size == 0)
+//@   ghostset writer.#gs = old(WS(writer, 3, i)) if old(writer.err) == nil
+//@   ghostset writer.#gn = old(WN(writer, 3, i)) if old(writer.err) == nil
+//@   ghostset writer.#gk = old(WK(writer, 3, i)) if old(writer.err) == nil
+//@   ghostset writer.#gm = old(WM(writer, 3, i)) if old(writer.err) == nil
+//@   modifies writer.err, writer.frame.#blen, bufbytes(writer.frame, writer.frame.#blen), writer.#gs, writer.#gn, writer.#gk, writer.#gm, #maxalloc, #nalloc
+
+//@ func (*Writer).AddBytes
+//@   props C02 C04 C09
+//@   requires writer != nil
+//@   requires [started] writer.err == nil ==> FrameOK(writer)
+//@   ensures [appended] old(writer.err) == nil ==> (writer.err == nil && writer.frame.#blen == old(writer.frame.#blen) + len(b) && FrameOK(writer) && size == len(b))
+//@   ensures [content] old(writer.err) == nil ==> (forall k :: (0 <= k && k < len(b)) ==> mem(bufarr(writer.frame), old(writer.frame.#blen) + k) == old(b[k]))
+//@   ensures [token] old(writer.err) == nil ==> (writer.#gs == old(WS(writer, 6, len(b))) && writer.#gn == old(WN(writer, 6, len(b))) && writer.#gk == old(WK(writer, 6, len(b))) && writer.#gm == old(WM(writer, 6, len(b))) && writer.#ft == old(writer.#ft))
+//@   ensures [latched] old(writer.err) != nil ==> (writer.err == old(writer.err) && writer.frame.#blen == old(writer.frame.#blen) && writer.#gs == old(writer.#gs) && size == 0)
+//@   ghostset writer.#gs = old(WS(writer, 6, len(b))) if old(writer.err) == nil
+//@   ghostset writer.#gn = old(WN(writer, 6, len(b))) if old(writer.err) == nil
+//@   ghostset writer.#gk = old(WK(writer, 6, len(b))) if old(writer.err) == nil
+//@   ghostset writer.#gm = old(WM(writer, 6, len(b))) if old(writer.err) == nil
+//@   modifies writer.err, writer.frame.#blen, bufbytes(writer.frame, writer.frame.#blen), writer.#gs, writer.#gn, writer.#gk, writer.#gm
+
+//@ func (*Writer).AddString
+//@   props C02 C04
+//@   requires writer != nil
+//@   requires [started] writer.err == nil ==> FrameOK(writer)
+//@   ensures [appended] old(writer.err) == nil ==> (writer.err == nil && writer.frame.#blen == old(writer.frame.#blen) + len(s) && FrameOK(writer) && size == len(s))
+//@   ensures [token] old(writer.err) == nil ==> (writer.#gs == old(WS(writer, 4, nulfree(s) ? 1 : 0)) && writer.#gn == old(WN(writer, 4, 0)) && writer.#gk == old(WK(writer, 4, 0)) && writer.#gm == old(WM(writer, 4, 0)) && writer.#ft == old(writer.#ft))
+//@   ensures [latched] old(writer.err) != nil ==> (writer.err == old(writer.err) && writer.frame.#blen == old(writer.frame.#blen) && writer.#gs == old(writer.#gs) && size == 0)
+//@   ghostset writer.#gs = old(WS(writer, 4, nulfree(s) ? 1 : 0)) if old(writer.err) == nil
+//@   ghostset writer.#gn = old(WN(writer, 4, 0)) if old(writer.err) == nil
+//@   ghostset writer.#gk = old(WK(writer, 4, 0)) if old(writer.err) == nil
+//@   ghostset writer.#gm = old(WM(writer, 4, 0)) if old(writer.err) == nil
+//@   modifies writer.err, writer.frame.#blen, bufbytes(writer.frame, writer.frame.#blen), writer.#gs, writer.#gn, writer.#gk, writer.#gm
+
+//@ func (*Writer).AddNullTerminate
+//@   props C02 C04
+//@   requires writer != nil
+//@   requires [started] writer.err == nil ==> FrameOK(writer)
+//@   ensures [appended] old(writer.err) == nil ==> (writer.err == nil && writer.frame.#blen == old(writer.frame.#blen) + 1 && mem(bufarr(writer.frame), old(writer.frame.#blen)) == 0 && FrameOK(writer))
+//@   ensures [token] old(writer.err) == nil ==> (writer.#gs == old(WS(writer, 5, 0)) && writer.#gn == old(WN(writer, 5, 0)) && writer.#gk == old(WK(writer, 5, 0)) && writer.#gm == old(WM(writer, 5, 0)) && writer.#ft == old(writer.#ft))
+//@   ensures [latched] old(writer.err) != nil ==> (writer.err == old(writer.err) && writer.frame.#blen == old(writer.frame.#blen) && writer.#gs == old(writer.#gs))
+//@   ghostset writer.#gs = old(WS(writer, 5, 0)) if old(writer.err) == nil
+//@   ghostset writer.#gn = old(WN(writer, 5, 0)) if old(writer.err) == nil
+//@   ghostset writer.#gk = old(WK(writer, 5, 0)) if old(writer.err) == nil
+//@   ghostset writer.#gm = old(WM(writer, 5, 0)) if old(writer.err) == nil
+//@   modifies writer.err, writer.frame.#blen, bufbytes(writer.frame, writer.frame.#blen), writer.#gs, writer.#gn, writer.#gk, writer.#gm
+
+//@ func (*Writer).End
+//@   props C02 C04 C05 C06 C12 C13 C01
+//@   requires writer != nil && writer.Writer != nil
+//@   requires [started] writer.err == nil ==> FrameOK(writer)
+//@   requires [accepting] {C02 C09 C17} writer.err == nil ==> Accepting(writer)
+//@   ensures [always-reset] writer.frame.#blen == 0 && writer.err == nil
+//@   ensures [latched-silent] old(writer.err) != nil ==> (result == old(writer.err) && #nOut == old(#nOut) && #nZ == old(#nZ) && #nE == old(#nE) && #last == old(#last) && #cyc == old(#cyc) && #failed == old(#failed))
+//@   ensures [emitted] (old(writer.err) == nil && result == nil) ==> (#nOut == old(#nOut) + 1 && #last == old(writer.#ft) && #nZ == old(#nZ) + (old(writer.#ft) == 'Z' ? 1 : 0) && #nE == old(#nE) + (old(writer.#ft) == 'E' ? 1 : 0) && #cyc == cycStep(old(#cyc), old(writer.#ft)) && #failed == old(#failed))
+//@   ensures [sink-failed] (old(writer.err) == nil && result != nil) ==> (#nOut == old(#nOut) && #nZ == old(#nZ) && #nE == old(#nE) && #last == old(#last) && #cyc == old(#cyc) && #failed)
+//@   ensures [fail-stop] old(#failed) ==> result != nil
+//@   ensures [err-kind] (old(writer.err) == nil && result != nil) ==> !isExceeded(result)
+//@   modifies writer.err, writer.frame.#blen, bufbytes(writer.frame, 1), #nOut, #nZ, #nE, #last, #cyc, #failed
